@@ -603,9 +603,22 @@ func c03World(r *rand.Rand, exact bool) *World {
 		}
 	}
 	nrec := 1 + r.Intn(4)
+	nbas, wide := 2, false
+	if r.Intn(8) == 0 {
+		// recipes with many elements (more than 16 / 32 distinct ones): the single-element balance depends on
+		// every one of them being merged correctly
+		nrec, nbas, wide = 4+r.Intn(4), 18+r.Intn(30), true
+		for len(names) < nrec+nbas+4 {
+			n := mk()
+			if !seen[n] {
+				seen[n] = true
+				names = append(names, n)
+			}
+		}
+	}
 	w := &World{Exact: exact, Layout: "2006/01/02"}
-	w.Recipes, w.Basics, w.Unknown = names[:nrec], names[nrec:nrec+2], names[nrec+2:]
-	w.Book = gen.RandomBook(r, gen.BookOpts{Recipes: nrec, Basics: 2, MaxDepth: 1 + r.Intn(3), Exact: exact, RecipeNames: w.Recipes, BasicNames: w.Basics})
+	w.Recipes, w.Basics, w.Unknown = names[:nrec], names[nrec:nrec+nbas], names[nrec+nbas:]
+	w.Book = gen.RandomBook(r, gen.BookOpts{Recipes: nrec, Basics: nbas, MaxDepth: 1 + r.Intn(3), Exact: exact, RecipeNames: w.Recipes, BasicNames: w.Basics, Wide: wide})
 	w.Log = gen.RandomLog(r, gen.LogOpts{Days: 1 + r.Intn(4), Foods: names, Exact: exact, EmptyDays: true})
 	w.Res = model.Resolve(w.Book)
 	w.Abs = model.AbsPaths(w.Book)
